@@ -19,6 +19,7 @@ package scalarDistribution
 /* -------------------------------------------------------------------------- */
 
 import   "fmt"
+import   "math"
 
 import . "github.com/pbenner/autodiff"
 import . "github.com/pbenner/autodiff/statistics"
@@ -35,6 +36,9 @@ type LaplaceDistribution struct {
 /* -------------------------------------------------------------------------- */
 
 func NewLaplaceDistribution(mu, sigma Scalar) (*LaplaceDistribution, error) {
+  if sigma.GetFloat64() <= 0.0 {
+    return nil, fmt.Errorf("invalid parameters")
+  }
 
   result := LaplaceDistribution{}
   result.Mu    = mu   .CloneScalar()
@@ -68,13 +72,16 @@ func (dist *LaplaceDistribution) ScalarType() ScalarType {
 
 func (dist *LaplaceDistribution) LogPdf(r Scalar, x ConstScalar) error {
 
+  // -|x - mu|/sigma - log(2 sigma)
+  t := dist.Sigma.CloneScalar()
+  t.Mul(t, dist.c2)
+  t.Log(t)
+
   r.Sub(x, dist.Mu)
   r.Abs(r)
   r.Div(r, dist.Sigma)
   r.Neg(r)
-  r.Exp(r)
-  r.Div(r, dist.Sigma)
-  r.Div(r, dist.c2)
+  r.Sub(r, t)
 
   return nil
 }
@@ -89,16 +96,22 @@ func (dist *LaplaceDistribution) Pdf(r Scalar, x ConstScalar) error {
 
 func (dist *LaplaceDistribution) LogCdf(r Scalar, x Vector) error {
 
+  upper := x.At(0).Greater(dist.Mu)
+
   r.Sub(x.At(0), dist.Mu)
   r.Abs(r)
   r.Div(r, dist.Sigma)
   r.Neg(r)
-  r.Exp(r)
-  r.Div(r, dist.c2)
 
-  if x.At(0).Greater(dist.Mu) {
+  if upper {
+    // log(1 - exp(-|x - mu|/sigma)/2)
+    r.Exp(r)
+    r.Div(r, dist.c2)
     r.Neg(r)
-    r.Add(r, dist.c1)
+    r.Log1p(r)
+  } else {
+    // -|x - mu|/sigma - log(2)
+    r.Sub(r, ConstFloat64(math.Ln2))
   }
   return nil
 }
